@@ -836,9 +836,11 @@ func (P *Prog) discharge(obls []*Obligation, opt SolveOpts) {
 				again = append(again, i)
 			}
 		}
-		if len(again) > 0 && len(again) <= 24 {
+		if len(again) > 0 && len(again) <= 40 {
 			ropt := opt
-			ropt.Timeout = 3 * opt.Timeout
+			// generous: the slowest obligations need about a minute on an idle machine and
+			// have been seen to take close to three under heavy load
+			ropt.Timeout = 6 * opt.Timeout
 			sem = make(chan struct{}, 4)
 			for _, i := range again {
 				j := jobs[i]
